@@ -334,6 +334,9 @@ class Reader:
             base = t.value
             if isinstance(base, ast.Attribute) and U(base.value) == 'self':
                 self.s.appends.append((base.attr, self.show(val), loop, 'item[%s]' % self.canon(t.slice, env)))
+            elif isinstance(base, ast.Name) and isinstance(env.get(base.id), tuple) and env[base.id][0] == 'ALIAS':
+                # a local that names the same container as self.X
+                self.s.appends.append((env[base.id][1], self.show(val), loop, 'item[%s]' % self.canon(t.slice, env)))
 
     def _parsable(self, s):
         try:
@@ -411,7 +414,7 @@ class Reader:
                 attrs = [t.attr for t in s.targets if isinstance(t, ast.Attribute) and U(t.value) == 'self']
                 if isinstance(s.value, ast.Attribute) and U(s.value.value) == 'self':
                     attrs.append(s.value.attr)
-                if attrs and (isinstance(s.value, (ast.List, ast.Attribute)) or (isinstance(s.value, ast.Call) and U(s.value.func) == 'list' and not s.value.args)):
+                if attrs and (isinstance(s.value, (ast.List, ast.Dict, ast.Attribute)) or (isinstance(s.value, ast.Call) and U(s.value.func) in ('list', 'dict') and not s.value.args)):
                     for t in s.targets:
                         if isinstance(t, ast.Name):
                             env[t.id] = ('ALIAS', attrs[0])
